@@ -328,6 +328,8 @@ func TestVerifC09Rot(t *testing.T) {
 		var f counter.VFile
 		c := f.New("c09")
 		good := true
+		var lastRotate time.Time
+		diverged := false // the code left the model in a way the property does not forbid: only property clauses are judged from then on
 		for i, st := range bh.Steps {
 			now = at(st.Day, st.Tod)
 			switch st.Op {
@@ -335,13 +337,46 @@ func TestVerifC09Rot(t *testing.T) {
 			case "setw":
 				setWeekends(t, []byte(fmt.Sprintf("%d\n", st.W)), false)
 			case "rotate":
-				f.Rotate1()
-				if err := f.Err(); err != nil {
-					rt.Out(rt.M{"kind": "mismatch", "what": "rotate failed", "id": bh.ID, "step": i, "err": err.Error()})
-					good = false
+				expiry := f.Rotate1()
+				lastRotate = now
+				// the property's own clause: the instant the process will rotate at (what rotate1 returns and
+				// rotate arms its timer for) is the end RECORDED in the file it now writes to
+				if name := f.CurrentName(); name != "" {
+					if data, err := os.ReadFile(name); err == nil {
+						if rec, err := time.Parse(time.RFC3339, rt.DecodeV1(data).Meta["TimeEnd"]); err == nil && !rec.Equal(expiry) {
+							rt.Out(rt.M{"kind": "mismatch", "what": "the process will rotate at another instant than the end recorded in the file it writes to", "id": bh.ID,
+								"step": i, "op": "rotate", "rotates_at": expiry.Format(time.RFC3339), "recorded_end": rec.Format(time.RFC3339), "file": filepath.Base(name)})
+							good = false
+						}
+					}
+				}
+				// the model says when the open is refused for good (today's file exists with another end recorded)
+				wantFail := st.Cur[0] == -2
+				if err := f.Err(); (err != nil) != wantFail && !diverged {
+					if wantFail {
+						// the code did not refuse: that alone is not what the property forbids (it could have
+						// adopted the recorded end); from here on only the property's own clause is judged
+						rt.Out(rt.M{"kind": "divergence", "what": "rotate accepted a file of today's name with another recorded end", "id": bh.ID, "step": i})
+						diverged = true
+					} else {
+						rt.Out(rt.M{"kind": "mismatch", "what": "rotate failed", "id": bh.ID, "step": i, "op": "rotate", "err": fmt.Sprint(err)})
+						good = false
+					}
 				}
 			case "inc":
+				before, _, _ := project(dir)
 				c.Inc()
+				after, _, _ := project(dir)
+				// the property's own clause: after a rotation made when a file's recorded end had been reached, no increment lands in that file
+				for k, v := range after {
+					var b, e int64
+					fmt.Sscanf(k, "%d,%d", &b, &e)
+					if v > before[k] && !lastRotate.Before(at(e, 0)) {
+						rt.Out(rt.M{"kind": "mismatch", "what": "increment landed in a file whose recorded end had been reached at the last rotation", "id": bh.ID, "step": i, "op": "inc",
+							"file": k, "day": st.Day, "tod": st.Tod})
+						good = false
+					}
+				}
 			case "upload":
 				// the start instant is the same whatever time zone it is expressed in
 				zones := []*time.Location{time.UTC, time.FixedZone("west", -8*3600), time.FixedZone("east", 14*3600), time.FixedZone("half", 5*3600+1800)}
@@ -353,6 +388,12 @@ func TestVerifC09Rot(t *testing.T) {
 			}
 			steps++
 			disk, reports, problems := project(dir)
+			if diverged {
+				if !good {
+					break
+				}
+				continue
+			}
 			if len(problems) > 0 || !eqMap(disk, st.Disk) || !eqMap(reports, st.Reports) {
 				good = false
 				rt.Out(rt.M{"kind": "mismatch", "what": "projection", "id": bh.ID, "step": i, "op": st.Op, "w": bh.W, "day": st.Day, "tod": st.Tod,
